@@ -81,6 +81,9 @@ type SSH struct {
 	BannersByText map[string]BannerSpec // command text -> banner at its first occurrence (IOS)
 	HostKeyQ      bool                  // ask the ssh host-key question first
 	NeedEnable    bool                  // login ends in user mode, enable needs a password
+	EnableUnset   bool                  // ASA 9.12+: no enable password configured; 'enable' starts the dialogue that sets one
+	EnablePassSet int                   // how often that dialogue was completed (a change of the running configuration)
+	setPass1      string
 
 	Trans          []Rec
 	point          int
@@ -179,7 +182,7 @@ func (s *SSH) rec(text, class, dev string, accepted bool) {
 
 func (s *SSH) classify(l string) string {
 	switch s.phase {
-	case "login", "hostkey", "enable-pass":
+	case "login", "hostkey", "enable-pass", "enable-set1", "enable-set2":
 		return ClLogin
 	}
 	w := strings.Fields(l)
@@ -325,12 +328,37 @@ func (s *SSH) line(l string) {
 			s.emit("enable\r\n% No password set\r\n\r\n" + s.Hostname + "> ")
 			return
 		}
+		if l == "enable" && s.EnableUnset && s.EnablePassSet == 0 {
+			s.phase = "enable-set1"
+			s.emit("enable\r\nThe enable password is not set.  Please set it now.\r\nEnter  Password: ")
+			return
+		}
 		if l == "enable" {
 			s.phase = "enable-pass"
 			s.emit("enable\r\nPassword: ")
 			return
 		}
 		s.emit(l + "\r\n" + s.Hostname + "> ")
+		return
+	case "enable-set1":
+		s.rec("<password>", ClLogin, dev, true)
+		s.setPass1 = l
+		s.phase = "enable-set2"
+		s.emit("\r\nRepeat Password: ")
+		return
+	case "enable-set2":
+		// the second, equal entry completes the dialogue: the device now
+		// has 'enable password <hash> pbkdf2' in its running configuration
+		if dev == DevError || l != s.setPass1 || len(l) < 3 {
+			s.rec("<password>", ClLogin, dev, true)
+			s.phase = "user"
+			s.emit("\r\nERROR: Passwords do not match\r\n" + s.Hostname + "> ")
+			return
+		}
+		s.rec("<new enable password>", ClChange, dev, true)
+		s.EnablePassSet++
+		s.phase = "cli"
+		s.emit("\r\nNote: Save your configuration so that the password can be used for FIPS-CC or for recovery.\r\n" + s.prompt())
 		return
 	case "enable-pass":
 		s.rec("<password>", ClLogin, dev, true)
